@@ -133,25 +133,26 @@ class BX:
             'family=fibruns,depth=16,pd=min,nf=1,kinds=HTFC+HHTFC+HASHHF+HASHUFFDAC+RPHTFC',
         ],
         'thorough': [
+            # (each scope gets a fair share of the time left; the size-relation families come first, then the subset scopes)
+            'family=fibruns,depth=12+13+14+15+16+17+18,pd=quick,nf=1,kinds=HTFC+HHTFC+HASHHF+HASHUFFDAC+RPHTFC',
+            'sigma=2,L=2,pal=abc+sgn,stretch=1,pd=minb,nf=1,rep=40,pre=0+125+126+127',
+            'sigma=2,L=5,pal=abc+ext+sgn,stretch=1,pd=quick,nf=1,ramp=both',
+            'sigma=3,L=3,pal=abc+ext,stretch=1,pd=quick,nf=1,ramp=both',
+            'sigma=4,L=3,exact=1,pal=abc+spr,stretch=1,pd=quick,nf=1,ramp=lex',
+            'sigma=3,L=2,pal=abc,stretch=1,pd=minb,nf=1,rep=30,maxn=3,pre=0+126',
+            'sigma=2,L=2,pal=abc,stretch=1,pd=min,nf=1,maxn=2,pre=16382+16383+16384,kinds=PFC+RPFC+HTFC+HHTFC+RPHTFC+RPDAC+HASHHF+HASHRPF+HASHUFFDAC+HASHRPDAC+HASHRPDACBlocks+FMINDEX',
+            'sigma=3,L=3,pal=abc,stretch=1,pd=min,nf=1,co=1',
+            'sigma=2,L=5,pal=abc,stretch=1,pd=min,nf=1,co=1',
+            'sigma=2,L=2,pal=abc+sgn,stretch=1,pd=quick,nf=1,maxn=3,pre=125+126+127+128+129',
+            'sigma=2,L=2,pal=abc,stretch=1,pd=minb,nf=1,rep=99,maxn=3,pre=126',
+            'sigma=2,L=5,pal=abc,stretch=130,pd=min,nf=1,ramp=shortlex',
             'sigma=2,L=2,pal=abc+ext+sgn+spr,stretch=1+130,pd=full,nf=4',
             'sigma=3,L=2,pal=abc,stretch=1,pd=quick,nf=2',
             'sigma=2,L=3,pal=abc,stretch=1,pd=quick,nf=2',
             'sigma=3,L=2,pal=ext+sgn+spr,stretch=1,pd=min,nf=2,maxn=4',
             'sigma=2,L=4,pal=abc,stretch=1,pd=quick,nf=1,co=2',
-            'sigma=3,L=3,pal=abc,stretch=1,pd=min,nf=1,co=1',
             'sigma=2,L=2,pal=abc,stretch=1100,pd=min,nf=1,maxn=3',
-            'sigma=2,L=2,pal=abc+sgn,stretch=1,pd=quick,nf=1,maxn=3,pre=125+126+127+128+129',
             'sigma=2,L=4,pal=abc,stretch=1,pd=min,nf=1,maxn=3',
-            'sigma=2,L=2,pal=abc,stretch=1,pd=min,nf=1,maxn=2,pre=16382+16383+16384,kinds=PFC+RPFC+HTFC+HHTFC+RPHTFC+RPDAC+HASHHF+HASHRPF+HASHUFFDAC+HASHRPDAC+HASHRPDACBlocks+FMINDEX',   # (XBW needs minutes per query on 16 KiB strings)
-            'sigma=2,L=5,pal=abc+ext+sgn,stretch=1,pd=quick,nf=1,ramp=both',
-            'sigma=3,L=3,pal=abc+ext,stretch=1,pd=quick,nf=1,ramp=both',
-            'sigma=4,L=3,exact=1,pal=abc+spr,stretch=1,pd=quick,nf=1,ramp=lex',
-            'sigma=2,L=5,pal=abc,stretch=130,pd=min,nf=1,ramp=shortlex',
-            'sigma=2,L=5,pal=abc,stretch=1,pd=min,nf=1,co=1',
-            'sigma=2,L=2,pal=abc+sgn,stretch=1,pd=minb,nf=1,rep=40,pre=0+125+126+127',
-            'sigma=2,L=2,pal=abc,stretch=1,pd=minb,nf=1,rep=99,maxn=3,pre=126+16382',
-            'sigma=3,L=2,pal=abc,stretch=1,pd=minb,nf=1,rep=30,maxn=3,pre=0+126',
-            'family=fibruns,depth=12+13+14+15+16+17+18,pd=quick,nf=1,kinds=HTFC+HHTFC+HASHHF+HASHUFFDAC+RPHTFC',
         ],
     }
     DEADLINE = {'quick': 300, 'thorough': 3600}
@@ -269,7 +270,7 @@ class BX:
                 if tier != 'quick':
                     # thorough tier: every scope gets a fair share of what is left (unused time rolls over), so that a large early
                     # scope cannot starve the later ones; a scope cut by its share is reported as incomplete with the units it covered
-                    left = max(30.0, left * 1.6 / (len(runs) - ri)) if left > 5 and ri < len(runs) - 1 else left
+                    left = max(30.0, left * 1.25 / (len(runs) - ri)) if left > 5 and ri < len(runs) - 1 else left
                 if left < 5:
                     cov['exhaustive'] = False
                     cov['scopes_incomplete'].append({'scope': scope, 'flavour': flav, 'reason': 'deadline reached before start'})
